@@ -60,6 +60,11 @@ CLAIMED = {
              "Tie: the real fix machinery of every peer replayed on the model frame by frame (dumped system order, companion presence after every frame), component-slice correspondence for Transform/Visibility/lights, oracle (companions within a frame, values converge, an existing GlobalTransform keeps its value).",
         note="Trusted: Lean kernel + standard axioms; Added<T>/Without<T> semantics and Commands flush points modelled, tied by sampled trace correspondence; companion values other than GlobalTransform are only checked for presence.",
         technique="Lean 4 proof (order-independent frame theorem, value-untouched invariant) + frame-by-frame trace correspondence + oracle", ref="§7 C17"),
+    "C04": dict(
+        text="Machine-checked proof on the emission-filter model (the decision logic of every origination site: change detection, asset reaction systems, snapshot): every message a peer originates — live or in the snapshot — names a synchronized entity and, for components, a type registered on that peer and not excluded on that entity, for assets a uuid id of a class enabled on that peer; an entity that is not synchronized is never named. "
+             "Tie: nine translator facts on the real filters (query filters of sync_detect, run_if gates in both plugins, AssetId::Uuid let-else in all ten reaction/snapshot functions, registration and exclusion checks of the snapshot); every message seen in any receive tap of sessions with random per-peer registration subsets, switches, excludes, index/uuid ids and a late joiner is attributed to its originator and judged by the model's predicate on that peer's own configuration.",
+        note="Trusted: Lean kernel + standard axioms; the attribution of a received message to its originator (sender id hook, host relays recognised by content) and the 4-frame window in which the originator's configuration is looked up; exclusion/registration are evaluated when the change is detected (a change queued before an exclusion is added still leaves).",
+        technique="Lean 4 proof (decision-logic theorems over the emission sites) + translator facts + per-message attribution oracle", ref="§7 C04"),
 }
 PENDING_REASON = "not claimed yet: machinery for this property is still being built (see DESIGN.md §10 build order); no check is registered until its theorems and tie run"
 
